@@ -302,6 +302,11 @@ class Algebra:
                         if _is_agg(v, ERR):
                             out.append((at, ("agg", ERR, (("call", "From::from", (v[2][0],), ()),)) if conv else v))
                     return out
+            if c == "darling_core::error::Accumulator::finish_with" and len(a) == 2:
+                # `errors.finish_with(v)` is `errors.finish().map(|()| v)` (C05.finish.delegates / finish_with case table)
+                fin = ("call", "darling_core::error::Accumulator::finish", (a[0],), ())
+                test = ("call", IS_OK, (fin,), ())
+                return [(((test, True),), ("agg", OK, (a[1],))), (((test, False),), ("agg", ERR, (payload(fin, "Err"),)))]
             inl = self.inline_private(c, a, e[3] if len(e) > 3 else ())
             if inl is not None:
                 return inl
